@@ -36,9 +36,12 @@ package node
 // Representation invariant of a node value; su(n) (declared in /verif/spec/uuid.spec) is its UUID.
 //@ spec macro wfNode(n *Node) Bool = n != nil && n.t != nil && n.id != nil
 
+// The UUID of a node is the SHA-1 of the type bytes followed by the id bytes, whatever the pooled
+// buffer contained before (Reset); su-def makes su(n) a name for exactly that value.
+//@ pool bufPool: x != nil
 //@ props C06
 //@ func (n *Node) UUID
-//@   trusted hash of the node's type and id; definedness and injectivity are the subject of C06
-//@   pure
+//@   opt axioms su-def
 //@   requires wfNode(n)
-//@   ensures result == su(n) && len(result) == 16
+//@   ensures[hash-of-type-and-id] result == sha16(nodeEnc(deref(n.t), deref(n.id)))
+//@   ensures[is-su] result == su(n) && len(result) == 16
